@@ -120,6 +120,7 @@ fn main() {
             std::process::exit(64);
         }
     }
+    rep.count("transport.requests_resent_after_actix_slow_request_408", http::TRANSPORT_408_RESENDS.load(std::sync::atomic::Ordering::Relaxed));
     let out = serde_json::to_string(&rep.to_json(&cfg.prop, cfg.seed, cfg.shard)).unwrap();
     match &cfg.out {
         Some(p) => std::fs::write(p, out).expect("write report"),
